@@ -92,69 +92,93 @@ def main():
                 ag.build(mult=mult)
                 HH = numpy.array(ag.get_Hamiltonian().data)
                 DD = numpy.array(ag.get_TransitionDipoleMoment().data)
-            real_states = [(tuple(int(x) for x in s[0]),
-                            tuple(int(x) for x in s[1])) for s in ag.vibsigs]
-            spec_states = [(tuple(s["el"]), tuple(s["vib"]))
-                           for s in row["states"]]
+            def compare(ag, hr, HH, DD, tag):
+                rpt = dict(rp, stage=tag)
+                real_states = [(tuple(int(x) for x in s[0]),
+                                tuple(int(x) for x in s[1]))
+                               for s in ag.vibsigs]
+                spec_states = [(tuple(s["el"]), tuple(s["vib"]))
+                               for s in row["states"]]
+                ck.case("state-count", (row["inst"], mult, tag), sample=dict(
+                    rpt, ntot=len(real_states)))
+                if sorted(real_states) != sorted(spec_states) or \
+                        ag.Ntot != len(spec_states):
+                    ck.violation("state-count", "product-of-levels", dict(
+                        rpt, got=len(real_states), want=len(spec_states)),
+                        rpt)
+                    return
+                if real_states != spec_states:
+                    ck.model_drift("vibronic state order differs for "
+                                   "instance %d" % row["inst"])
+                flat = [(m - 1, j - 1) for (m, j) in row["flat"]]
+                shift = {k: math.sqrt(2.0 * hr[k]) for k in hr}
+                pos = {s: i for i, s in enumerate(real_states)}
+
+                def fcprod(e1, v1, e2, v2):
+                    p = 1.0
+                    for q, (m, j) in enumerate(flat):
+                        d = (shift[(m, j)] if e1[m] == 1 else 0.0) - \
+                            (shift[(m, j)] if e2[m] == 1 else 0.0)
+                        if d == 0.0:
+                            p *= 1.0 if v1[q] == v2[q] else 0.0
+                        else:
+                            p *= fc_closed(d / math.sqrt(2.0), v1[q], v2[q])
+                    return p
+
+                worst = 0.0
+                for (e1, v1) in spec_states:
+                    for (e2, v2) in spec_states:
+                        a, b = pos[(e1, v1)], pos[(e2, v2)]
+                        diff = [k for k in range(N) if e1[k] != e2[k]]
+                        fc = fcprod(e1, v1, e2, v2)
+                        if a == b:
+                            wantH = sum(E[k] for k in range(N) if e1[k]) + \
+                                sum(v1[q] * om[flat[q]]
+                                    for q in range(len(flat)))
+                        elif len(diff) == 2 and sum(e1) == sum(e2):
+                            wantH = J[diff[0], diff[1]] * fc
+                        else:
+                            wantH = 0.0
+                        wantD = dip[diff[0]] * fc if len(diff) == 1 else \
+                            numpy.zeros(3)
+                        eh = abs(HH[a, b] - wantH)
+                        ed = float(numpy.abs(DD[a, b, :] - wantD).max())
+                        worst = max(worst, eh, ed)
+                        ck.case("vibronic-elements",
+                                (row["inst"], mult, tag, a, b),
+                                nontrivial=(a != b and (
+                                    wantH != 0 or numpy.any(wantD != 0))))
+                        if eh > 1e-10:
+                            ck.violation(
+                                "hamiltonian-element-is-product",
+                                "H:" + tag, dict(rpt, s1=[e1, v1],
+                                                 s2=[e2, v2],
+                                                 got=float(HH[a, b]),
+                                                 want=wantH), rpt)
+                        if ed > 1e-10:
+                            ck.violation(
+                                "dipole-element-is-product", "D:" + tag,
+                                dict(rpt, s1=[e1, v1], s2=[e2, v2],
+                                     got=DD[a, b, :].tolist(),
+                                     want=list(map(float, wantD))), rpt)
+                ck.samples.append({"clause": "vibronic-elements",
+                                   "case": dict(rpt, ntot=len(spec_states),
+                                                worst_err=worst)})
+
             ck.traces_validated += 1
-            ck.case("state-count", (row["inst"], mult), sample=dict(
-                rp, ntot=len(real_states)))
-            if sorted(real_states) != sorted(spec_states) or \
-                    ag.Ntot != len(spec_states):
-                ck.violation("state-count", "product-of-levels", dict(
-                    rp, got=len(real_states), want=len(spec_states)), rp)
-                continue
-            if real_states != spec_states:
-                ck.model_drift("vibronic state order differs for instance %d"
-                               % row["inst"])
-            flat = [(m - 1, j - 1) for (m, j) in row["flat"]]
-            shift = {k: math.sqrt(2.0 * hr[k]) for k in hr}
-            pos = {s: i for i, s in enumerate(real_states)}
-
-            def fcprod(e1, v1, e2, v2):
-                p = 1.0
-                for q, (m, j) in enumerate(flat):
-                    d = (shift[(m, j)] if e1[m] == 1 else 0.0) - \
-                        (shift[(m, j)] if e2[m] == 1 else 0.0)
-                    if d == 0.0:
-                        p *= 1.0 if v1[q] == v2[q] else 0.0
-                    else:
-                        p *= fc_closed(d / math.sqrt(2.0), v1[q], v2[q])
-                return p
-
-            worst = 0.0
-            for (e1, v1) in spec_states:
-                for (e2, v2) in spec_states:
-                    a, b = pos[(e1, v1)], pos[(e2, v2)]
-                    diff = [k for k in range(N) if e1[k] != e2[k]]
-                    fc = fcprod(e1, v1, e2, v2)
-                    if a == b:
-                        wantH = sum(E[k] for k in range(N) if e1[k]) + sum(
-                            v1[q] * om[flat[q]] for q in range(len(flat)))
-                    elif len(diff) == 2 and sum(e1) == sum(e2):
-                        wantH = J[diff[0], diff[1]] * fc
-                    else:
-                        wantH = 0.0
-                    wantD = dip[diff[0]] * fc if len(diff) == 1 else \
-                        numpy.zeros(3)
-                    eh = abs(HH[a, b] - wantH)
-                    ed = float(numpy.abs(DD[a, b, :] - wantD).max())
-                    worst = max(worst, eh, ed)
-                    ck.case("vibronic-elements", (row["inst"], mult, a, b),
-                            nontrivial=(a != b and (wantH != 0 or
-                                                    numpy.any(wantD != 0))))
-                    if eh > 1e-10:
-                        ck.violation("hamiltonian-element-is-product",
-                                     "H", dict(rp, s1=[e1, v1], s2=[e2, v2],
-                                               got=float(HH[a, b]),
-                                               want=wantH), rp)
-                    if ed > 1e-10:
-                        ck.violation("dipole-element-is-product", "D",
-                                     dict(rp, s1=[e1, v1], s2=[e2, v2],
-                                          got=DD[a, b, :].tolist(),
-                                          want=list(map(float, wantD))), rp)
-            ck.samples.append({"clause": "vibronic-elements", "case": dict(
-                rp, ntot=len(spec_states), worst_err=worst)})
+            compare(ag, hr, HH, DD, "first-build")
+            # the same aggregate object after its modes were changed and it
+            # was rebuilt: nothing of the first build may survive
+            if any(len(a) for a in agg):
+                hr2 = {k: v + 0.17 for k, v in hr.items()}
+                with qr.energy_units("int"):
+                    for m in range(N):
+                        for j in range(len(agg[m])):
+                            ag.monomers[m].get_Mode(j).set_HR(1, hr2[(m, j)])
+                    ag.rebuild(mult=mult)
+                    HH2 = numpy.array(ag.get_Hamiltonian().data)
+                    DD2 = numpy.array(ag.get_TransitionDipoleMoment().data)
+                compare(ag, hr2, HH2, DD2, "rebuilt-after-set_HR")
 
     # ------------------------------------------- Franck-Condon law (sampled)
     of = operator_factory(N=100)
